@@ -6,6 +6,7 @@ func init() {
 		Technique:   "map-order taint analysis into the grouping-key hash, injectivity rule on the key encoder's write sequence, provenance pairing of every keyed store/lookup, freshness of mutated sets",
 		Explanation: "Decides the structural clauses behind 'a series is identified by its label set': the grouping key cannot depend on map iteration order, its encoding is injective over label sets (up to 64-bit hash collisions), every keyed store/lookup uses Key() of the label set stored with it (the grouped one where a grouper exists), key and reported labels enumerate the same visible labels, by/without sets are never shared mutably.",
 		Decided: []string{
+			"AF-SET (shared with C11): By consults the inherited by-set with a nil test; PV-API: label values are copied with AsString",
 			"PV-PAIR: a sample's label set is newAggregatedLabels(set of the entry just read, by, without) on every emitting path",
 			"MO: no map iteration order reaches aggregatedLabels.Key or LabelSet.String",
 			"PV-INJKEY: every variable string the key encoder writes is quoted or terminated by a byte that cannot occur in it",
